@@ -6,7 +6,7 @@ use std::{fmt, mem};
 use tokio::sync::oneshot;
 use tracing::warn;
 
-use crate::bucket::segment::{CommittedEvents, SegmentIter};
+use crate::bucket::segment::{CommittedEvents, EventRecord, SegmentIter};
 use crate::bucket::{BucketId, BucketSegmentId, PartitionId, SegmentId};
 use crate::error::{PartitionIndexError, ReadError, StreamIndexError};
 use crate::reader_thread_pool::{ReaderSet, ReaderThreadPool};
@@ -47,6 +47,9 @@ pub trait IterConfig: Clone + Send + 'static {
 
     /// Extract the last position from a commit (sequence for partition, version for stream)
     fn extract_last_position(&self, commit: &CommittedEvents) -> Option<u64>;
+
+    /// Position of a single event (sequence for partition, version for stream)
+    fn position(&self, event: &EventRecord) -> u64;
 }
 
 /// Configuration for partition iteration
@@ -143,6 +146,10 @@ impl IterConfig for PartitionIterConfig {
 
     fn extract_last_position(&self, commit: &CommittedEvents) -> Option<u64> {
         commit.last_partition_sequence()
+    }
+
+    fn position(&self, event: &EventRecord) -> u64 {
+        event.partition_sequence
     }
 }
 
@@ -250,6 +257,10 @@ impl IterConfig for StreamIterConfig {
     fn extract_last_position(&self, commit: &CommittedEvents) -> Option<u64> {
         commit.last_stream_version()
     }
+
+    fn position(&self, event: &EventRecord) -> u64 {
+        event.stream_version
+    }
 }
 
 /// Generic iterator over buckets that can be configured for either
@@ -264,6 +275,10 @@ pub struct BucketIter<C: IterConfig> {
     has_next_segment: bool,
     dir: IterDirection,
     batch: VecDeque<CommittedEvents>,
+    /// Reverse scans only return events at or before this position
+    reverse_bound: u64,
+    /// A reverse scan has returned position 0: nothing is left to read
+    reached_start: bool,
 }
 
 impl<C: IterConfig> BucketIter<C> {
@@ -275,7 +290,7 @@ impl<C: IterConfig> BucketIter<C> {
         from_position: u64,
         dir: IterDirection,
     ) -> Result<Self, C::Error> {
-        Self::new_inner(
+        let mut iter = Self::new_inner(
             config,
             bucket_id,
             reader_pool,
@@ -288,7 +303,11 @@ impl<C: IterConfig> BucketIter<C> {
             },
             true,
         )
-        .await
+        .await?;
+        if matches!(dir, IterDirection::Reverse) {
+            iter.reverse_bound = from_position;
+        }
+        Ok(iter)
     }
 
     #[allow(clippy::too_many_arguments)]
@@ -337,6 +356,8 @@ impl<C: IterConfig> BucketIter<C> {
                     has_next_segment,
                     dir,
                     batch: VecDeque::new(),
+                    reverse_bound: u64::MAX,
+                    reached_start: false,
                 });
             }
         }
@@ -351,6 +372,8 @@ impl<C: IterConfig> BucketIter<C> {
                 has_next_segment: false,
                 dir,
                 batch: VecDeque::new(),
+                reverse_bound: u64::MAX,
+                reached_start: false,
             });
         }
 
@@ -445,6 +468,8 @@ impl<C: IterConfig> BucketIter<C> {
                     has_next_segment,
                     dir,
                     batch: VecDeque::new(),
+                    reverse_bound: u64::MAX,
+                    reached_start: false,
                 })
             }
             None => {
@@ -470,6 +495,8 @@ impl<C: IterConfig> BucketIter<C> {
                             has_next_segment: false,
                             dir,
                             batch: VecDeque::new(),
+                            reverse_bound: u64::MAX,
+                            reached_start: false,
                         });
                     }
                 }
@@ -483,6 +510,8 @@ impl<C: IterConfig> BucketIter<C> {
                     has_next_segment: false,
                     dir,
                     batch: VecDeque::new(),
+                    reverse_bound: u64::MAX,
+                    reached_start: false,
                 })
             }
         }
@@ -497,14 +526,8 @@ impl<C: IterConfig> BucketIter<C> {
         }
 
         if let Some(batch_back) = self.batch.back() {
-            self.last_position = self
-                .config
-                .extract_last_position(batch_back)
-                .map(|v| match self.dir {
-                    IterDirection::Forward => v + 1,
-                    IterDirection::Reverse => v.saturating_sub(1),
-                })
-                .unwrap_or(self.last_position);
+            let (first, last) = self.commit_bounds(batch_back);
+            self.advance_position(first, last);
             return Ok(Some(mem::take(&mut self.batch).into()));
         }
 
@@ -519,6 +542,7 @@ impl<C: IterConfig> BucketIter<C> {
                     let commits: Vec<_> = commits
                         .into_iter()
                         .filter_map(|commit| self.config.filter_commit(commit))
+                        .filter_map(|commit| self.clamp_reverse(commit))
                         .collect();
 
                     let Some(last_commit) = commits.last() else {
@@ -528,14 +552,8 @@ impl<C: IterConfig> BucketIter<C> {
 
                     // The position must come from the filtered events: the last event of
                     // a multi-stream transaction may belong to another stream
-                    self.last_position = self
-                        .config
-                        .extract_last_position(last_commit)
-                        .map(|v| match self.dir {
-                            IterDirection::Forward => v + 1,
-                            IterDirection::Reverse => v.saturating_sub(1),
-                        })
-                        .unwrap_or(self.last_position);
+                    let (first, last) = self.commit_bounds(last_commit);
+                    self.advance_position(first, last);
 
                     return Ok(Some(commits));
                 }
@@ -548,6 +566,55 @@ impl<C: IterConfig> BucketIter<C> {
                     }
 
                     return Ok(None);
+                }
+            }
+        }
+    }
+
+    /// First and last position (sequence or version) of a returned commit.
+    fn commit_bounds(&self, commit: &CommittedEvents) -> (Option<u64>, Option<u64>) {
+        (
+            commit.first().map(|event| self.config.position(event)),
+            self.config.extract_last_position(commit),
+        )
+    }
+
+    /// Moves the continuation position past the last returned commit.
+    fn advance_position(&mut self, first: Option<u64>, last: Option<u64>) {
+        match self.dir {
+            IterDirection::Forward => {
+                if let Some(v) = last {
+                    self.last_position = v + 1;
+                }
+            }
+            IterDirection::Reverse => {
+                // A commit is read forward from the event the reverse scan arrived at:
+                // that event is its first one, the scan continues below it
+                if let Some(v) = first {
+                    if v == 0 {
+                        self.reached_start = true;
+                    }
+                    self.last_position = v.saturating_sub(1);
+                }
+            }
+        }
+    }
+
+    /// A reverse scan reads each commit forward from the event it arrives at, which can
+    /// include events of the same transaction beyond the requested start: drop them.
+    fn clamp_reverse(&self, commit: CommittedEvents) -> Option<CommittedEvents> {
+        if matches!(self.dir, IterDirection::Forward) || self.reverse_bound == u64::MAX {
+            return Some(commit);
+        }
+        match commit {
+            CommittedEvents::Single(event) => (self.config.position(&event) <= self.reverse_bound)
+                .then_some(CommittedEvents::Single(event)),
+            CommittedEvents::Transaction { mut events, commit } => {
+                events.retain(|event| self.config.position(event) <= self.reverse_bound);
+                if events.is_empty() {
+                    None
+                } else {
+                    Some(CommittedEvents::Transaction { events, commit })
                 }
             }
         }
@@ -570,8 +637,10 @@ impl<C: IterConfig> BucketIter<C> {
         let segment_iter = self.segment_iter.take().unwrap();
         let current_segment_id = segment_iter.bucket_segment_id.segment_id;
 
-        // For reverse iteration, stop if we've reached segment 0
-        if matches!(self.dir, IterDirection::Reverse) && current_segment_id == 0 {
+        // For reverse iteration, stop if we've reached segment 0 or position 0
+        if matches!(self.dir, IterDirection::Reverse)
+            && (current_segment_id == 0 || self.reached_start)
+        {
             return Ok(false);
         }
 
@@ -581,6 +650,7 @@ impl<C: IterConfig> BucketIter<C> {
         };
 
         let from_position = self.last_position;
+        let reverse_bound = self.reverse_bound;
 
         *self = Self::new_inner(
             self.config.clone(),
@@ -593,6 +663,7 @@ impl<C: IterConfig> BucketIter<C> {
             self.has_next_segment,
         )
         .await?;
+        self.reverse_bound = reverse_bound;
 
         Ok(true)
     }
